@@ -181,9 +181,9 @@ def _analyze_require_comment(self, lToi, lAllowTokens):
         if len(lTokens) == 1:
             if isinstance(lTokens[0], parser.blank_line):
                 continue
-        elif len(lTokens) == 2:
-            if token_is_whitespace(lTokens[0]) and token_is_comment(lTokens[1]) and self.allow_comment:
-                continue
+        # The comments reach the beginning of the file:  there is no line above them.
+        if _comment_starts_line(lTokens):
+            continue
         oViolation = violation.New(oToi.get_line_number(), oToi, self.solution)
         dAction = {}
         dAction["action"] = "Insert"
